@@ -42,6 +42,8 @@ func iteS(c bool, a, b string) string {
 //@   tags C17 C19
 //@   opt scan-complete C17
 //@   results buf wrote
+//@   loop 2 invariant len(p.Prefixes) == atLoopEntry(len(p.Prefixes))
+//@   loop 3 invariant len(p.Suffixes) == atLoopEntry(len(p.Suffixes))
 //@   loop 0 body[C09,C10] format-only-keeps-every-line: implies(formatOnly, bufContent(p.dest) == atHead(bufContent(p.dest))+line+"\n")
 //@   loop 0 body[C07,C05] no-entry-for-definition-and-meta-lines: implies(!formatOnly && (parsedLine.parsedType == definition || parsedLine.parsedType == comment || parsedLine.parsedType == empty || parsedLine.parsedType == flags || parsedLine.parsedType == prefix || parsedLine.parsedType == suffix), bufContent(p.dest) == atHead(bufContent(p.dest)))
 //@   loop 0 body[C05,C07] regular-line-emitted-in-place: implies(!formatOnly && parsedLine.parsedType == regular, bufContent(p.dest) == atHead(bufContent(p.dest))+line+"\n")
@@ -65,14 +67,16 @@ func SpecCutReplace(entry, match, replacement string) string {
 // replaceSuffixes: without pairs the text is returned as it is. With pairs every line is
 // written back followed by one newline; comment/directive lines ("##!...") and blank lines
 // are copied; for every other line each iteration of the pair loop applies exactly
-// SpecCutReplace of that pair (loop 1 body clause). Several pairs are applied in map order:
-// that the result does not depend on the order is NOT provable and is recorded (C03/C06).
+// SpecCutReplace of that pair (loop 1 body clause). Several pairs are applied in the sorted order of
+// their keys (the map is drained into a slice and sorted first), so the result does not depend
+// on map iteration order.
 //@ contract replaceSuffixes
 //@   tags C06 C17 C19
 //@   opt scan-complete C17
 //@   results out err
 //@   ensures[C06] no-pairs-identity: implies(isNil(suffixReplacements), err == nil)
-//@   loop 1 body[C06] one-pair-step: entry == SpecCutReplace(atHead(entry), match, replacement)
+//@   checks[C03,C06] pairs-sorted-before-use: implies(!isNil(suffixReplacements), called(Strings))
+//@   loop 2 body[C06] one-pair-step: entry == SpecCutReplace(atHead(entry), match, replacement)
 
 // ---- C06: exclusions ------------------------------------------------------------------------
 // removeExclusions: after an exclude file has been processed, exactly the keys equal to one of
